@@ -44,10 +44,16 @@ FileAfter(op, before, bytes) == IF op = "|>" THEN bytes ELSE before \o bytes
 
 Cases == {[kind |-> "route", ot |-> ot, et |-> et, pos |-> pos, ctx |-> c, want |-> Route(ot, et, pos)] :
               ot \in OutTokens, et \in ErrTokens, pos \in Positions, c \in Contexts}
-FileCases == {[kind |-> "file", op |-> op, before |-> b, bytes |-> x, after |-> FileAfter(op, b, x), ops |-> n] :
-              op \in FileOps, b \in {<<>>, <<"p">>}, x \in {<<"q">>, <<"q", "r">>, <<>>}, n \in {1}}
+\* the flags that make the builtin buffer its input before writing do not change what the file must hold
+FileFlags == {"", "-w", "--wait-for-eof", "-i"}
+FileCases == {[kind |-> "file", op |-> op, flag |-> f, before |-> b, bytes |-> x, after |-> FileAfter(op, b, x), ops |-> n] :
+              op \in FileOps, f \in FileFlags, b \in {<<>>, <<"p">>}, x \in {<<"q">>, <<"q", "r">>, <<>>}, n \in {1}}
+\* a pipeline that reads the file it writes: `open f -> filter |> f` (the builtin then caches its input by itself)
+SelfCases == {[kind |-> "self", op |-> op, before |-> b, keep |-> k,
+               after |-> FileAfter(op, b, SelectSeq(b, LAMBDA l : l \in k))] :
+              op \in FileOps, b \in {<<"p", "q">>}, k \in {{}, {"p"}, {"p", "q"}}}
 \* two file operations in a row on the same file
 File2 == {[kind |-> "file2", op1 |-> a, op2 |-> b, x1 |-> <<"q">>, x2 |-> <<"r">>,
            after |-> FileAfter(b, FileAfter(a, <<"p">>, <<"q">>), <<"r">>)] : a \in FileOps, b \in FileOps}
-ASSUME ndJsonSerialize("cases.ndjson", SetToSeq(Cases) \o SetToSeq(FileCases) \o SetToSeq(File2))
+ASSUME ndJsonSerialize("cases.ndjson", SetToSeq(Cases) \o SetToSeq(FileCases) \o SetToSeq(SelfCases) \o SetToSeq(File2))
 =============================================================================
